@@ -173,6 +173,29 @@ CHECKS["C11"] = dict(
          "decode(encode(v)) = v for DELTA_*, dictionary, RLE; streaming/one-shot agreement.",
     ref="DESIGN.md §3 C11")
 
+CHECKS["C04"] = dict(
+    technique="static analysis: untrusted-field obligations with dominance on clang CFG, argument provenance, recursion guards on the call graph, path-sensitive ownership, index-argument and error-report must-pass rules",
+    text="Structural clauses: mapped pointers are formed from footer/page-header offsets only after a check against "
+         "the mapped size; page_extent_ok dominates every consumer of page bytes and the byte counts paired with "
+         "mapped pointers are the checked field; negative counts rejected before sizing memset/allocation; "
+         "dictionary copy bounded by the page size; Thrift list counts validated before sizing allocations/loops; "
+         "num_children loops also stop at the element count; recursion guarded; reader functions release what they "
+         "acquire on every path; every index parameter is range-checked before subscripting; every error exit with "
+         "an error object reports through CARQUET_SET_ERROR or a failing callee, message bounded. Not decided: "
+         "arithmetic adequacy of every guard, running-time bounds, statistics value sizes (noted in DESIGN.md).",
+    ref="DESIGN.md §3 C04")
+CHECKS["C08"] = dict(
+    technique="static analysis: zone-style cursor-bounds dataflow on clang CFG, cursor-skeleton abstract execution of count-driven decoders, array-index invariants, recursion and ownership rules",
+    text="Structural clauses: in the hand-written decoders (snappy, lz4, rle, delta, delta-length, delta-strings, "
+         "dictionary, plain, thrift/buffer readers) every access through an input/output cursor is covered on every "
+         "path by an established bound (constant or symbolic, with counted-loop and lock-step summaries); sub-buffers "
+         "travel with their exact remaining length or a declared extent; bit unpackers/PLAIN/BYTE_STREAM_SPLIT read "
+         "and write exactly their extents for all counts/widths; indices into fixed-size decoder state are bounded "
+         "by guards, validated header invariants or bounded fields whose constants fit the array lengths; index "
+         "guards are sign-safe; recursion guarded; temporaries released on every exit. Not decided: termination "
+         "bounds, oversized shifts, safety inside zlib/zstd.",
+    ref="DESIGN.md §3 C08")
+
 NOT_APPLICABLE = {
     "C10": "conformance of Snappy/LZ4 streams to the external grammars is a statement about emitted/accepted byte values; no structural clause beyond the decoder bounds already decided under C08 (DESIGN.md §6)",
     "C12": "conformance of encoder output to the Parquet encoding specification needs an independent codec as value oracle; no sound structural clause (DESIGN.md §6)",
